@@ -485,8 +485,8 @@ def clause_model(facts, rep, tier):
             if bad:
                 break
         if bad is None:
-            hs = (three + l1[:9]) if tier == 'quick' else (three + l1 + l2[:20])
-            ts = (three + l1[:14] + leaves[:2]) if tier == 'quick' else univ[:70]
+            hs = (three[:9] + l1[:4]) if tier == 'quick' else (three + l1 + l2[:20])
+            ts = (three[:10] + l1[:8] + leaves[:2]) if tier == 'quick' else univ[:70]
             for e in hs:
                 for t1 in ts:
                     for t2 in ts:
